@@ -76,6 +76,7 @@ class LoopInfo:
     node: Any = None
     guard: Term = T.TRUE
     live_out: Term = T.TRUE  # condition under which an iteration runs to its end (no break/continue/return taken)
+    pre: Dict[str, Term] = field(default_factory=dict)  # values of the loop-carried names before the loop
 
 
 @dataclass
@@ -443,7 +444,8 @@ class SymEval:
         self.loop_stack = self.loop_stack[:-1]
         self.live = live0
         self.loops[lid] = LoopInfo(lid, kind, iter_term, _dotted(target) if target is not None else None,
-                                   {n: v for n, v in env_in.items() if n in pre_env}, env_out, cond_t, st, live0, live_out)
+                                   {n: v for n, v in env_in.items() if n in pre_env}, env_out, cond_t, st, live0, live_out,
+                                   {n: pre_env[n] for n in env_in if n in pre_env})
         # after the loop: assigned names are unknown
         for n in names:
             frame.env[n] = T.sym(f"loopout{lid}:{n}")
@@ -843,16 +845,16 @@ class SymEval:
         # local list accumulation: x = []; ...; x.append(v)  ->  x becomes an 'accum' term that remembers what was
         # appended under which guard (the list object is local, so this is not an effect)
         if method in ("append", "extend") and isinstance(e.func.value, ast.Name) and recv is not None \
-                and recv[0] in ("list", "accum") and len(args) == 1 and not kwargs and frame.lookup(e.func.value.id) is recv:
-            base, items = (recv, ()) if recv[0] == "list" else (recv[1], recv[2])
+                and len(args) == 1 and not kwargs and frame.lookup(e.func.value.id) is recv:
             item = ("acc_item", self.live, args[0], self.loop_stack, method)
-            new = ("accum", base, items + (item,))
-            f = frame
-            while f is not None and e.func.value.id not in f.env:
-                f = f.parent
-            (f or frame).env[e.func.value.id] = new
-            self.emit("local_append", e.func.value.id, args[0], e, frame, recv=recv)
-            return T.NONE
+            new = _acc_append(recv, item)
+            if new is not None:
+                f = frame
+                while f is not None and e.func.value.id not in f.env:
+                    f = f.parent
+                (f or frame).env[e.func.value.id] = new
+                self.emit("local_append", e.func.value.id, args[0], e, frame, recv=recv)
+                return T.NONE
         return self.call(fterm, args, kwargs, e, frame, recv=recv, method=method)
 
     def fname(self, fterm: Term) -> str:
@@ -925,7 +927,7 @@ class SymEval:
                 return t
         # generic call
         pure = self.is_pure(name, method, recv)
-        t = T.mk_call(name if fterm[0] in ("sym", "attr") else fterm, args, kwargs, None if pure else self.uid())
+        t = T.mk_call(name if fterm[0] == "sym" else fterm, args, kwargs, None if pure else self.uid())
         self.emit("call", name, t, node, frame, args=tuple(args), kwargs=tuple(kwargs), recv=recv)
         return t
 
@@ -1130,7 +1132,11 @@ class SymEval:
             return T.mk_ite(pred, out.get("a", T.NONE), out.get("b", T.NONE))
         if name == "jax.tree_util.tree_map" and len(args) >= 2 and args[0][0] == "closure":
             # leafwise application: the identity on leaves is what the algebraic rules need
-            return self.call(args[0], list(args[1:]), [], node, frame)
+            trees = list(args[1:])
+            if all(t[0] == "list" for t in trees) and len({len(t[1]) for t in trees}) == 1 and not any(
+                    x[0] == "star" for t in trees for x in t[1]):
+                return ("list", tuple(self.call(args[0], [t[1][i] for t in trees], [], node, frame) for i in range(len(trees[0][1]))))
+            return self.call(args[0], trees, [], node, frame)
         if name == "functools.partial" and len(args) >= 1:
             u = self.uid()
             self.closures[u] = Closure(u, "partial", inner=args[0], bound_args=tuple(args[1:]),
@@ -1172,6 +1178,19 @@ class SymEval:
         if name == "isinstance" and len(args) == 2:
             return T.mk_call("isinstance", args, [], None)
         return None
+
+
+def _acc_append(t: Term, item) -> Optional[Term]:
+    if t[0] == "list":
+        return ("accum", t, (item,))
+    if t[0] == "accum":
+        return ("accum", t[1], t[2] + (item,))
+    if t[0] == "ite":
+        a, b = _acc_append(t[2], item), _acc_append(t[3], item)
+        if a is None or b is None:
+            return None
+        return ("ite", t[1], a, b)
+    return None
 
 
 def _arith_ok(t: Term) -> bool:
